@@ -114,6 +114,9 @@ func (st *orderState) install() {
 		}
 		if mode != verifseam.Canonical {
 			st.sites[site]++
+			if n >= 3 {
+				stats.probe("map-range-with-3+-keys-permuted")
+			}
 		}
 		return mode, r
 	}
@@ -433,6 +436,35 @@ func checkC15(c C15Case) (*Violation, []string, *caseInfo) {
 		if want.pan != "" && got.pan != "" {
 			continue // the call panics on pristine input too: C13's business
 		}
+		if !got.err && got.pan == "" {
+			switch call.Op {
+			case "RenderPatch":
+				if call.D < len(liveDiffs) {
+					for _, e := range liveDiffs[call.D] {
+						if len(e.Add) > 1 {
+							stats.probe("multi-add-hunk-rendered-as-json-patch")
+						}
+					}
+				}
+			case "RenderMerge":
+				if call.D < len(liveDiffs) {
+					for _, e := range liveDiffs[call.D] {
+						for _, x := range e.Add {
+							if fingerprint(x) == "jd.voidNode{}" {
+								stats.probe("void-addition-rendered-as-merge-patch")
+							}
+						}
+					}
+					if call.D >= len(c.Opts) && call.D < len(c.Opts)+len(c.Texts) && c.Texts[call.D-len(c.Opts)].Derive == "" && c.Texts[call.D-len(c.Opts)].Kind == "jd" {
+						stats.probe("hand-written-merge-hunks-rendered-as-merge-patch")
+					}
+				}
+			case "Read":
+				if call.T < len(c.Texts) && c.Texts[call.T].Kind == "merge" && c.Order.Mode != "canonical" {
+					stats.probe("merge-patch-read-under-permuted-map-order")
+				}
+			}
+		}
 		if got.pan != want.pan || got.err != want.err || (!got.err && got.text != want.text) {
 			target := "-"
 			if call.D < len(w.diffs) && strings.Contains(call.Op, "Render") {
@@ -499,6 +531,9 @@ func checkC15(c C15Case) (*Violation, []string, *caseInfo) {
 			return outcome{text: x.Json()}
 		})
 		stats.LibCalls += 2
+		if !r1.err && r1.pan == "" {
+			stats.probe("live-document-patched-in-place-with-live-diff")
+		}
 		if !(r1.pan != "" && r2.pan != "") && r1.String() != r2.String() {
 			return viol15("still-patches-in-place", "Patch", "after the history %s, A.Patch(%s) on the very values the history used gives %s; fresh copies of the original document and diff give %s", strings.Join(ops, " · "), s.name, showStr(r1.String()), showStr(r2.String())), w.log, info
 		}
